@@ -849,6 +849,37 @@ static std::string run_cmd(const std::vector<std::string>& a) {
         upa::url_search_params::name_value_list l; WITH_STR(t, S, l = upa::url_search_params::do_parse(rem, S));
         std::ostringstream o; o << "urlenc_parse "; bool f = true; for (auto& kv : l) { o << (f ? "" : ",") << hx(kv.first) << "=" << hx(kv.second); f = false; } if (f) o << "-"; return o.str(); }
     if (c == "icuinfo") { std::ostringstream o; o << "icuinfo options=" << g_icu_options.load() << " open_calls=" << g_icu_open_calls.load() << " toascii_calls=" << g_icu_toascii_calls.load(); return o.str(); }
+    if (c == "cpset") {   // cpset <from> <to> <x1> <x2>: the set-building API of code_point_set (C++17 and later): include(from, to), exclude(x1), include({x2}), copy()
+        need(4);
+        static unsigned g_from, g_to, g_x1, g_x2;
+        g_from = static_cast<unsigned>(sz_of(a[1])) & 255u; g_to = static_cast<unsigned>(sz_of(a[2])) & 255u; g_x1 = static_cast<unsigned>(sz_of(a[3])) & 255u; g_x2 = static_cast<unsigned>(sz_of(a[4])) & 255u;
+        std::ostringstream o; o << "cpset ";
+#ifdef UPA_CPP_17
+        const upa::code_point_set s1{ [](upa::code_point_set& self) { self.include(static_cast<uint8_t>(g_from), static_cast<uint8_t>(g_to)); self.exclude(static_cast<uint8_t>(g_x1)); self.include({ static_cast<uint8_t>(g_x2) }); } };
+        static const upa::code_point_set* g_src; g_src = &s1;
+        const upa::code_point_set s2{ [](upa::code_point_set& self) { self.copy(*g_src); } };
+        for (unsigned cp = 0; cp < 256; cp += 4) { unsigned v = 0; for (unsigned i = 0; i < 4; ++i) if (s2[static_cast<unsigned char>(cp + i)]) v |= 1u << i; o << "0123456789ABCDEF"[v]; }
+#else
+        o << "n/a";
+#endif
+        return o.str(); }
+    if (c == "parse_selfinput") {
+        // parse_selfinput <slot> <getter>: u.parse(v) where v is the view one of u's own getters returned (the INPUT aliases
+        // the object's string); the expected result is the parse of a copy of that text into a fresh object
+        need(2);
+        const int s = slot_of(a[1]); if (s < 0) return "ERR bad-args";
+        upa::url& u = U(s); const std::string& g = a[2];
+        if (!u.is_valid()) return "parse_selfinput skipped";
+        upa::string_view v;
+        if (g == "href") v = u.href(); else if (g == "pathname") v = u.pathname(); else if (g == "search") v = u.search();
+        else if (g == "hash") v = u.hash(); else if (g == "host") v = u.host(); else if (g == "path") v = u.path(); else return "ERR bad-getter";
+        const std::string copy(v.data(), v.length());
+        upa::url base; const bool has_base = a.size() > 3; if (has_base) { Tok t; if (!parse_tok(a[3], t)) return "ERR"; base.parse(t.s8, nullptr); }
+        upa::url ref; const auto r0 = ref.parse(copy, has_base ? &base : nullptr);
+        const auto r1 = u.parse(v, has_base ? &base : nullptr);
+        const bool same = r0 == r1 && ref.is_valid() == u.is_valid() && (!ref.is_valid() || obs(ref) == obs(u));
+        refresh_sp(s);
+        return std::string("parse_selfinput same=") + (same ? "1" : "0"); }
     if (c == "raw") {   // raw <slot>: the unnormalised hidden representation (used by the generator of the `ser` stream, not compared)
         need(1); const int sl = slot_of(a[1]); if (sl < 0) return "ERR"; const upa::url& u = U(sl);
         std::ostringstream o; o << "raw " << hx(u.norm_url_) << " ";
